@@ -91,12 +91,16 @@ def generate(thorough):
         # a field with a default initialiser that the constructor's initialiser list overrides (directly / in a supertype)
         "default-and-init-list": "class A { real n = 7.0; A(real k) : n(k) { } }",
         "default-and-super-init-list": "class B { real n = 7.0; B(real k) : n(k) { } } class A : B { A(real k) : B(k) { } }",
+        # several supertypes, the initialiser list invokes only a later one explicitly
+        "second-supertype-init-list": "class S1 { } class S2 { real n; S2() : n(9.0) { } S2(real k) : n(k) { } } class A : S1, S2 { A(real k) : S2(k) { } }",
+        "third-supertype-init-list": "class S1 { } class S0 { real m; S0() : m(3.0) { } } class S2 { real n; S2() : n(9.0) { } S2(real k) : n(k) { } } class A : S1, S0, S2 { A(real k) : S2(k) { } }",
     }
     for cname, cdecl in cls.items():
         for vals in ((1,), (1, 5), (1, 5, 9)):
             base = [cdecl] + ["A a%d = new A(%d.0);" % (i, v) for i, v in enumerate(vals)] + ["A v;"]
             fv = {"ctor-arg": lambda x: x, "init-const": lambda x: 7, "field-init": lambda x: 7, "ctor-body": lambda x: x + 1,
-                  "default-and-init-list": lambda x: x, "default-and-super-init-list": lambda x: x}[cname]
+                  "default-and-init-list": lambda x: x, "default-and-super-init-list": lambda x: x,
+                  "second-supertype-init-list": lambda x: x, "third-supertype-init-list": lambda x: x}[cname]
             field = {"a%d" % i: F(fv(v)) for i, v in enumerate(vals)}
             for cons, ok in (([], lambda n: True), (["v.n >= 4.0;"], lambda n: n >= 4), (["v.n <= 4.0;"], lambda n: n <= 4), (["v.n == 5.0;"], lambda n: n == 5),
                              (["v.n >= 2.0;", "v.n <= 8.0;"], lambda n: 2 <= n <= 8)):
@@ -137,6 +141,12 @@ def generate(thorough):
         {"kind": "ctor", "shape": "object-variable-declared-in-disjunct:used", "sat": True, "lower": 8})
     add("real a; { bool c; a >= 8.0; } or { bool d; a <= 0.0; a >= 8.0; }",
         {"kind": "ctor", "shape": "boolean-declared-in-disjunct", "sat": True, "lower": 8})
+    # ---- two object-typed fields read through ONE variable: in a candidate whose two fields hold the same object both
+    #      derived values are controlled by the same literal ----
+    tf = "class P { } class T { P home; P dest; T(P h, P d) : home(h), dest(d) { } } P p = new P(); P q = new P(); P r = new P(); T a = new T(p, p); T b = new T(q, r); T t; "
+    for cons, want in (("t.home != t.dest;", ["b"]), ("t.home == t.dest;", ["a"]), ("t.home != t.dest; t == a;", []), ("t.home == t.dest; t == b;", []),
+                       ("t.home != t.dest; t == b;", ["b"]), ("t.home == p;", ["a"]), ("t.dest != p;", ["b"]), ("t.home != q;", ["a"])):
+        add(tf + cons, {"kind": "twofields", "cons": cons, "want": want})
     # ---- enums ----
     for decl, size in (('enum E {"a", "b"};', 2), ('enum E {"a", "b", "c"};', 3), ('enum G {"c"}; enum E {"a", "b"} | G;', 3), ('enum G {"c", "d"}; enum H {"e"}; enum E {"a"} | G | H;', 4),
                        ('enum B {"r", "g"}; enum M {"b"} | B; enum E {"y", "k"} | M;', 5), ('enum B {"r"}; enum M {"b"} | B; enum T {"t"} | M; enum E {"y"} | T;', 4)):
@@ -205,6 +215,21 @@ def judge(prog, res):
             chosen = [nm for nm, i in sid.items() if i == d2[0]]
             if not chosen or chosen[0] not in feasible:
                 out.append(("C17:chosen-value-violates-constraints-or-domain:" + tag, "v = %s, allowed: %s (constraints %s)" % (chosen, feasible, cons)))
+        return out or None
+    if kind == "twofields":
+        tag = "twofields"
+        if v in ("inconsistent", "unsolvable"):
+            if m["want"]:
+                out.append(("C17:solvable-object-problem-rejected:" + tag, "reported %s although t can be %s (%s)" % (v, m["want"], m["cons"])))
+            return out or None
+        S = Solution(res)
+        dv = domain_of(S.env.get("t"))
+        names = {S.env[nm][1]: nm for nm in ("a", "b") if nm in S.env}
+        got = sorted(names.get(i, "?") for i in (dv or []))
+        if not dv or len(dv) != 1:
+            out.append(("C17:object-variable-without-single-value:" + tag, "t has %s values" % (dv and len(dv))))
+        elif got[0] not in m["want"]:
+            out.append(("C17:field-access-through-variable-wrong:" + tag, "`%s` is reported solved with t = %s; the candidates that satisfy it are %s" % (m["cons"], got[0], m["want"])))
         return out or None
     if kind == "ctor":
         tag = "ctor:" + m["shape"]
